@@ -233,6 +233,18 @@ def run_shard(job: dict[str, Any]) -> dict[str, Any]:
                     live_before = h.live_ids()
                     h.handle.drain()
                     # existing session keeps serving
+                    # first the scripts as they are (an open while draining must fail, and whatever the
+                    # request closed before that must be reflected in the client's view) ...
+                    if "open" in reqs[0]:
+                        try:
+                            view.run(ops=",".join(reqs[0]))
+                            chk.hit("drain_request_with_open_ok")
+                        except RpcError:
+                            chk.hit("drain_request_with_open_failed")
+                        _check_view(chk, h, view, reqs[0], {**wit, "phase": "open_while_draining"})
+                        if not h.live_ids():
+                            continue  # the script closed the session: nothing left to serve
+                    # ... then the same scripts without their opens: the existing session keeps serving
                     for r in reqs:
                         ops = [o for o in r if o != "open"] or ["use"]
                         try:
